@@ -81,9 +81,12 @@ def os_stat(ev, args, kwargs, node):
     if k in (1, 2, 3):
         # (ValueError: a NUL byte in the path.  The configured directory itself may be missing too.)
         raise PyRaise(("FileNotFoundError", "NotADirectoryError", "ValueError")[k - 1], None, getattr(node, "lineno", 0))
-    return st.alloc(Obj("stat_result", {"st_mode": st.fresh(Int, "st_mode"), "st_size": st.fresh(Int, "st_size"),
-                                        "st_mtime": st.fresh(Opaque("Float"), "st_mtime"),
-                                        "st_ctime": st.fresh(Opaque("Float"), "st_ctime")}))
+    fields = {"st_mode": st.fresh(Int, "st_mode"), "st_size": st.fresh(Int, "st_size"),
+              "st_mtime": st.fresh(Opaque("Float"), "st_mtime"), "st_ctime": st.fresh(Opaque("Float"), "st_ctime")}
+    # the last successful stat: the state of that entry as the request saw it (C14: the validators are compared with THIS)
+    g.fields["ok_path"] = args[0]
+    g.fields["ok_mtime"], g.fields["ok_size"], g.fields["ok_ctime"] = fields["st_mtime"], fields["st_size"], fields["st_ctime"]
+    return st.alloc(Obj("stat_result", fields))
 
 
 os_stat.mods = ("fs",)
@@ -93,7 +96,7 @@ def s_isreg(ev, args, kwargs, node):
     return VBool(ufunc("S_ISREG", I, Bz)(args[0].t))
 
 
-FS_T = ObjT("FsGhost", n_stat=Int, last=Str, all_inside=Bool)
+FS_T = ObjT("FsGhost", n_stat=Int, last=Str, all_inside=Bool, ok_path=Str, ok_mtime=Opaque("Float"), ok_size=Int, ok_ctime=Opaque("Float"))
 STAT_T = ObjT("stat_result", st_mode=Int, st_size=Int, st_mtime=Opaque("Float"), st_ctime=Opaque("Float"))
 
 CHECK_FILE = Contract(
@@ -111,6 +114,12 @@ CHECK_FILE = Contract(
                                       "fs.all_inside == (old(fs.all_inside) and inside(self.directory, path)))",
         "regular_iff_mode": "implies(not is_none(result[0]), result[1] == S_ISREG(result[0].st_mode))",
         "absent": "implies(is_none(result[0]), not result[1])",
+        # the stat result handed back is the one os.stat gave for this path (recorded as the last successful stat); a failed
+        # attempt leaves that record alone
+        "stat_recorded": "implies(not is_none(result[0]), fs.ok_path == path and fs.ok_mtime == result[0].st_mtime and "
+                         "fs.ok_size == result[0].st_size and fs.ok_ctime == result[0].st_ctime)",
+        "failed_stat_keeps_record": "implies(is_none(result[0]), fs.ok_path == old(fs.ok_path) and fs.ok_mtime == old(fs.ok_mtime) and "
+                                    "fs.ok_size == old(fs.ok_size) and fs.ok_ctime == old(fs.ok_ctime))",
     },
     canaries={"never_a_file": "not result[1]"},
     assumptions=["A-stat"],
@@ -144,7 +153,9 @@ def pages_ensure(file_, iface):
 from contracts import c14 as _c14
 from contracts import c02 as _c02
 
-SV_T = ObjT("ServedGhost", n=Int, kind=Int, path=Str, n_404=Int, n_redirect=Int)
+SV_T = ObjT("ServedGhost", n=Int, kind=Int, path=Str, n_404=Int, n_redirect=Int,
+            # what the served response was decided for (C14): the file, the validators, the stat fields
+            for_path=Str, inm=Str, ims=Str, mtime=Opaque("Float"), size=Int, ctime=Opaque("Float"))
 
 
 def _served(ev, recv, args, kwargs, node):
@@ -156,6 +167,9 @@ def _served(ev, recv, args, kwargs, node):
     g.fields["kind"] = o.fields["kind"]
     if "filepath" in o.fields:
         g.fields["path"] = o.fields["filepath"]
+    for a, b in (("for_path", "g_path"), ("inm", "g_inm"), ("ims", "g_ims"), ("mtime", "g_mtime"), ("size", "g_size"), ("ctime", "g_ctime")):
+        if b in o.fields:
+            g.fields[a] = o.fields[b]
     return NONE
 
 
@@ -215,18 +229,49 @@ def mk_app_call(file_, iface, cls):
     }
     if cls == "Files":
         ensures["lookup"] = "implies(sv.n == 1, fs.n_stat == 1 and fs.last == resolved_rp())"
+    # ----- C14 at the level of the application: the 304 / 200 decision is taken for the validators THIS request presented,
+    # against the stat result os.stat gave during THIS request for the very file that is served
+    ensures["decided_on_current_state"] = ("implies(sv.n == 1, sv.for_path == fs.ok_path and sv.mtime == fs.ok_mtime and "
+                                           "sv.size == fs.ok_size and sv.ctime == fs.ok_ctime and "
+                                           "implies(sv.kind == 200, sv.path == sv.for_path))")
+    ensures["validators_from_request"] = "implies(sv.n == 1, sv.inm == REQ_INM() and sv.ims == REQ_IMS())"
+    ensures["conditional_decision"] = (
+        "implies(sv.n == 1, (sv.kind == 304) == (((REQ_INM() == '*' or exists(i, 0, len(pieces), "
+        "etag_of(fs.ok_mtime, fs.ok_size) == tag(pieces[i]))) if REQ_INM() != '' else "
+        "(REQ_IMS() != '' and date_parses(REQ_IMS()) and "
+        "floor_int(fs.ok_ctime) <= floor_int(dt_timestamp(parsed_date(REQ_IMS())))))))")
     inv = {}
-    if iface == "asgi":
-        inv = {1: ["fs.n_stat == 0 and fs.all_inside and sv.n == 0 and sv.n_404 == 0 and sv.n_redirect == 0"]}
+    extra_requires = []
+    if iface == "wsgi":
+        req_defs = {"REQ_INM()": "(environ['HTTP_IF_NONE_MATCH'] if has(environ, 'HTTP_IF_NONE_MATCH') else '')",
+                    "REQ_IMS()": "(environ['HTTP_IF_MODIFIED_SINCE'] if has(environ, 'HTTP_IF_MODIFIED_SINCE') else '')"}
+    else:
+        # the header list is read front to back: every If-None-Match line joins one comma-separated list, the last
+        # If-Modified-Since line counts.  inm_upto(k) / ims_upto(k): the two values after the first k header pairs (ghost
+        # functions, defined by recursion on k - these requires are their definition, not a restriction of the request)
+        req_defs = {"REQ_INM()": "inm_upto(len(scope['headers']))", "REQ_IMS()": "ims_upto(len(scope['headers']))",
+                    "HK(k)": "scope['headers'][k][0]", "HV(k)": "scope['headers'][k][1].decode('latin-1')"}
+        extra_requires = [
+            "inm_upto(0) == '' and ims_upto(0) == ''",
+            "forall(k, 0, len(scope['headers']), inm_upto(k + 1) == (((inm_upto(k) + ', ' + HV(k)) if inm_upto(k) != '' else HV(k)) "
+            "if HK(k) == b'if-none-match' else inm_upto(k)))",
+            "forall(k, 0, len(scope['headers']), ims_upto(k + 1) == (HV(k) if (HK(k) != b'if-none-match' and HK(k) == b'if-modified-since') "
+            "else ims_upto(k)))",
+        ]
+        inv = {1: ["fs.n_stat == 0 and fs.all_inside and sv.n == 0 and sv.n_404 == 0 and sv.n_redirect == 0",
+                   "if_none_match == inm_upto(IDX) and if_modified_since == ims_upto(IDX)"]}
     return Contract(
         id="%s.%s.__call__" % (iface, cls), file=file_, qualname=cls + ".__call__", props=["C07", "C12"],
         params=params,
         ghosts={"fs": FS_T, "sv": SV_T, "rp": Str, "fx": ObjT("FxGhost", n_set_headers=Int), "pieces": List(Str)},
         requires=["self.directory != '' and not self.directory.endswith('/')", "fs.n_stat == 0 and fs.all_inside",
                   "sv.n == 0 and sv.n_404 == 0 and sv.n_redirect == 0", "fx.n_set_headers == 0"] + (
-                  ["rp == scope['path']"] if iface == "asgi" else []),
-        defs=dict(DEFS, **{"resolved_rp()": "abspath(path_join(self.directory, join_segments(rp))) + ('/' if rp.endswith('/') else '')"}),
-        ufuncs=dict(UF, S_ISREG=([Int], Bool), S_ISDIR=([Int], Bool)),
+                  ["rp == scope['path']"] if iface == "asgi" else []) + extra_requires,
+        defs=dict(DEFS, **dict(req_defs, **dict(_c14.DEFS, **{
+            "resolved_rp()": "abspath(path_join(self.directory, join_segments(rp))) + ('/' if rp.endswith('/') else '')"}))),
+        ufuncs=dict(UF, S_ISREG=([Int], Bool), S_ISDIR=([Int], Bool), inm_upto=([Int], Str), ims_upto=([Int], Str),
+                    date_parses=([Str], Bool), parsed_date=([Str], Opaque("Datetime")), dt_timestamp=([Opaque("Datetime")], Opaque("Float")),
+                    floor_int=([Opaque("Float")], Int), etag_of=([Opaque("Float"), Int], Str)),
         stubs={"request_path": lambda ev, a, k, n: ev.st.ghost["rp"], "stat.S_ISDIR": _s_isdir, "URL": _url_stub,
                "RedirectResponse": _redirect_stub,
                "quote": lambda ev, a, k, n: VStr(ufunc("quote_path", S, S)(a[0].t))},      # (A-quote-1; the target's text is C13)
@@ -249,6 +294,20 @@ def mk_app_call(file_, iface, cls):
 
 
 APP_CALLS = [mk_app_call(f, i, c) for f, i in ((WS, "wsgi"), (AS, "asgi")) for c in ("Files", "Pages")]
+
+C14_CLAUSES = ("decided_on_current_state", "validators_from_request", "conditional_decision", "/inv1.keep.2", "/inv1.entry.2")
+
+
+def _c14_select(kind, iface):
+    def sel(name, model):
+        if name.endswith(C14_CLAUSES):
+            return ("c14", "replay_family"), {"kind": kind, "iface": iface}
+        return None
+    return sel
+
+
+for _c in APP_CALLS:
+    _c.replay_select = _c14_select(_c.id.split(".")[1], _c.id.split(".")[0])
 
 
 def register(reg):
